@@ -178,7 +178,12 @@ def _r3(run, ev):
                 name, show(r.returns[0][1])[:60] if r.returns else "?", show(flag)), kind="shared-loader")
     f = project.fn("%s.%s._load" % (COLL, cls))
     run.note_func(f)
-    r = sym.make_evaluator(project, COLL, []).run(f.node)
+    # the loader with its private steps (header fixes, geometry analysis, result makers) spliced in
+    ev_load = sym.make_evaluator(project, COLL, [], inline_local=True)
+    ev_load.self_class = COLL + "." + cls
+    ev_load.inline_resolved = True
+    ev_load.no_inline = ("_scan_hdus", "from_array", "from_array_info")
+    r = ev_load.run(f.node)
     scan = ("call", ("attr", ("sym", "self"), "_scan_hdus"), (), ())
     loops = [(k, it, n) for k, it, n in r.loops if it == scan]
     if not loops:
@@ -322,6 +327,7 @@ def _r4(run):
     run.note_func(f)
     ev_l = sym.make_evaluator(project, COLL, [], inline_local=True)
     ev_l.self_class = COLL + ".CollectionLoader"       # parsing helpers of the loader are part of the flow
+    ev_l.unroll = True                                 # also when they are driven by a literal (option, parser) table
     r = ev_l.run(f.node)
     st = {}
     for e in r.events:
